@@ -1042,18 +1042,13 @@ class Emitter:
                 # a History consulted at a time: an external function of the time
                 self.inputs.add(recv[2])
                 return "(ECallFn (EVar %s) %s)" % (qs("get:" + recv[2]), self.expr(args[0]))
-            if recv[0] == "field" and recv[1] == ("path", ["self"]) and recv[2] in self.ext_fields:
-                # a method of an object of a generic type (the wrapped getter / settable): an external call.  Its arguments are
-                # appended to the object's call log (fn, args, prev), its answer is the input `ans:<field>.<fn>`
-                f = recv[2]
-                tmps = [self.fresh("x") for _ in args]
-                self.inputs.add("ans:%s.%s" % (f, name))
-                log = "(EField (EField (EVar \"self\") %s) \"log\")" % qs(f)
-                inner = "(ESeq (EAssign (LField (LField (LVar \"self\") %s) \"log\") (ERec [(\"args\", EArr %s); (\"fn\", EVariant %s); (\"prev\", %s)])) (EVar %s))" % (
-                    qs(f), self.lst(["(EVar %s)" % qs(t) for t in tmps]), qs(name), log, qs("ans:%s.%s" % (f, name)))
-                for a, t in reversed(list(zip(args, tmps))):
-                    inner = "(ELet (PVar %s) %s %s)" % (qs(t), self.expr(a), inner)
-                return inner
+            xr = recv
+            while xr[0] == "mcall" and xr[2] in ("borrow", "borrow_mut") and not xr[3]: xr = xr[1]
+            if xr[0] == "field" and xr[1] == ("path", ["self"]) and xr[2] in self.ext_fields:
+                # a method of an object that is external to this body (a wrapped getter / settable of a generic type, an object
+                # shared through a Reference): the call is appended to the call log of self (obj, fn, args, prev) and its answer
+                # is the input `ans:<field>.<fn>`
+                return self.ext_call(xr[2], name, args)
             # calls of the crate's own functions: inline the translated body (a RefCell borrow is transparent)
             while recv[0] == "mcall" and recv[2] in ("borrow", "borrow_mut") and not recv[3]:
                 recv = recv[1]
@@ -1077,6 +1072,12 @@ class Emitter:
             raise ParseError("macro %s!" % e[1])
         if k == "return":
             return "(EReturn %s)" % (self.expr(e[1]) if e[1] is not None else "EUnit")
+        if k == "assign" and e[1][0] == "unary" and e[1][1] == "*":
+            xr = e[1][2]
+            while xr[0] == "mcall" and xr[2] in ("borrow", "borrow_mut") and not xr[3]: xr = xr[1]
+            if xr[0] == "field" and xr[1] == ("path", ["self"]) and xr[2] in self.ext_fields:
+                # `*self.<shared cell>.borrow_mut() = v`: a write to an object shared through a Reference, logged like a call
+                return self.ext_call(xr[2], "=", [e[2]], answer=False)
         if k == "assign":
             return "(EAssign %s %s)" % (self.lval(e[1]), self.expr(e[2]))
         if k == "opassign" and e[1] in ("+", "-") and self.is_usize(e[2]) and self.is_usize(e[3]):
@@ -1126,6 +1127,20 @@ class Emitter:
         if k == "block":
             return self.block(e[1], e[2])
         raise ParseError("expression form %r" % (k,))
+
+    def ext_call(self, f, name, args, answer=True):
+        tmps = [self.fresh("x") for _ in args]
+        log = "(EField (EVar \"self\") \"ext_log\")"
+        app = "(EAssign (LField (LVar \"self\") \"ext_log\") (ERec [(\"args\", EArr %s); (\"fn\", EVariant %s); (\"obj\", EVariant %s); (\"prev\", %s)]))" % (
+            self.lst(["(EVar %s)" % qs(t) for t in tmps]), qs(name), qs(f), log)
+        if answer:
+            self.inputs.add("ans:%s.%s" % (f, name))
+            inner = "(ESeq %s (EVar %s))" % (app, qs("ans:%s.%s" % (f, name)))
+        else:
+            inner = app
+        for a, t in reversed(list(zip(args, tmps))):
+            inner = "(ELet (PVar %s) %s %s)" % (qs(t), self.expr(a), inner)
+        return inner
 
     def terminal_array(self, e):
         """`&self.<field>` where the field is an array of Terminals (reads_as_inputs devices only): the field name"""
